@@ -1,6 +1,7 @@
 import Hertz.Driver.Core
 import Hertz.Model.Recycle
 import Hertz.Spec.Recycle
+import Hertz.Driver.C09Own
 /-!
 Driver handler for C09 (see `harness/c09.go` for the ops).
 
@@ -190,6 +191,7 @@ def handle : Handler
   | "rst" :: ty :: m :: _keep :: _steps, impl => rst ty m impl
   | "probe" :: variant :: flags :: steps, impl => probe variant flags steps impl
   | "pool" :: ty :: steps, impl => pool ty steps impl
+  | "own" :: a, impl => C09Own.own a impl
   | ["probec", conns, _, _], impl =>
     match impl with
     | n :: m :: _ => some { out := [n, "0"], spec := m == "0", specNote := "no probe differs from the fresh dump under concurrency",
